@@ -6,7 +6,7 @@ sys.path.insert(0, str(Path(__file__).resolve().parent))
 
 def main():
     import importlib
-    for name in ("tr_particles", "tr_models", "tr_amp", "tr_lexer"):
+    for name in ("tr_particles", "tr_models", "tr_amp", "tr_lexer", "tr_layout"):
         try:
             m = importlib.import_module(name)
         except ModuleNotFoundError:
